@@ -61,6 +61,20 @@ class FullTranslator(Translator):
             self.bad(n, 'floating literal %s is not an exactly representable integer' % n['value'])
         return E(str(int(v)) if v >= 0 else '(%d)' % int(v), T_DBL)
 
+    def ex_UnaryExprOrTypeTraitExpr(self, n, env):
+        if n.get('name') != 'sizeof' or 'argType' not in n:
+            self.bad(n, '%s expression' % n.get('name'))
+        at = self.resolve(n['argType'], n)
+        if at.kind == 'int' and at.w is not None:
+            v = at.w // 8
+        elif at.kind == 'bool':
+            v = 1
+        elif at.kind == 'dbl':
+            v = 8
+        else:
+            self.bad(n, 'sizeof of %s (only scalar types: object layout is not in the AST)' % n['argType'].get('qualType'))
+        return E(str(v), self.resolve(n['type'], n))
+
     def ex_SubstNonTypeTemplateParmExpr(self, n, env):
         return self.ex([c for c in n['inner'] if not c.get('kind', '').endswith('Decl')][-1], env)
 
@@ -68,7 +82,7 @@ class FullTranslator(Translator):
         if env.self_ty is None:
             self.bad(n, '`this` outside a method')
         env.uses_self = True
-        return E('self', env.self_ty)
+        return E(env.self_name, env.self_ty)
 
     def ex_DeclRefExpr(self, n, env):
         r = n['referencedDecl']
@@ -89,7 +103,8 @@ class FullTranslator(Translator):
             if d is None:
                 self.bad(n, 'variable %s declared outside the dumped namespace' % r.get('name'))
             local = d.get('_parent') is not None and d['_parent'].get('kind', '') in (
-                'FunctionDecl', 'CXXMethodDecl', 'CXXConstructorDecl', 'CXXConversionDecl') and d.get('storageClass') != 'static'
+                'FunctionDecl', 'CXXMethodDecl', 'CXXConstructorDecl', 'CXXConversionDecl') and d.get('storageClass') != 'static' \
+                and not d.get('constexpr')             # a constexpr local is a constant, not a free variable
             if rk == 'ParmVarDecl' or local:
                 if not env.extract:
                     self.bad(n, 'reference to local %s that is not bound here' % r.get('name'))
@@ -201,7 +216,16 @@ class FullTranslator(Translator):
 
     def ex_BinaryOperator(self, n, env):
         op = n['opcode']
+        if op == '=' or op == ',':
+            self.bad(n, 'operator `%s` inside an expression (assignments are only translated as statements)' % op)
         L, R = self.ex(n['inner'][0], env), self.ex(n['inner'][1], env)
+        return self.binop(n, op, L, R, n['type'])
+
+    def ex_CompoundAssignOperator(self, n, env):
+        self.bad(n, 'operator `%s` inside an expression (assignments are only translated as statements)' % n.get('opcode'))
+
+    def binop(self, n, op, L, R, tobj):
+        """`L op R` evaluated in the type `tobj` (the AST type of the operator node / computeResultType)"""
         a, b = paren(L.term), paren(R.term)
         if op in ('&&', '||'):
             if L.ty.kind != 'bool' or R.ty.kind != 'bool':
@@ -219,7 +243,7 @@ class FullTranslator(Translator):
             if L.ty.kind == 'int' and (L.ty.w, L.ty.signed) != (R.ty.w, R.ty.signed):
                 self.bad(n, 'comparison of differently typed integers without conversion')
             return E('%s%s %s %s' % (SEM, CMP[op], a, b), T_BOOL, dd)
-        ty = self.resolve(n['type'], n)
+        ty = self.resolve(tobj, n)
         if ty.kind == 'dbl':
             if op not in ('+', '-', '*'):
                 self.bad(n, 'floating-point operator %s (only exact integer-valued + - * are translated)' % op)
@@ -295,7 +319,12 @@ class FullTranslator(Translator):
         return c
 
     def call_fn(self, n, f, args, self_arg, env):
+        if f.get('_q') in getattr(env, 'opaque', ()):
+            return self.opaque_call(n, f, args, self_arg, env)
         it = self.fn_item(f)
+        if it.effectful:
+            self.bad(n, 'call of %s, a function with effects, inside an expression (translated only as `f(..);`, `lv = f(..);`, '
+                        '`T x = f(..);`, `return f(..);`)' % f.get('_q'))
         al = list(args)
         if it.uses_self:
             if self_arg is None:
@@ -312,6 +341,22 @@ class FullTranslator(Translator):
                   None if it.defd_trivial else '%s_defined%s' % (it.full, argt))
         return E(it.full + argt, it.ret, dd)
 
+    def opaque_call(self, n, f, args, self_arg, env):
+        """a call the target declares opaque: its value becomes an extra parameter of the translated function
+        (sound for a const noexcept method of *this without arguments in a function that writes nothing)"""
+        q = f['type'].get('qualType', '')
+        tail = q[q.rfind(')') + 1:]
+        if args or self_arg is None or self_arg.term != 'self' or ' const' not in tail or 'noexcept' not in tail:
+            self.bad(n, 'opaque call of %s: only `this->f()` of a const noexcept method without arguments' % f.get('_q'))
+        ty = self.resolve(n['type'], n)
+        if ty.kind not in ('int', 'bool') or (ty.kind == 'int' and ty.w is None):
+            self.bad(n, 'opaque call returning %r' % ty)
+        env.uses_self = True
+        key = f['id']
+        if key not in env.opaque_vals:
+            env.opaque_vals[key] = (env.fresh(f.get('name') + '_value'), ty, f.get('_q'))
+        return E(env.opaque_vals[key][0], ty)
+
     def ex_CallExpr(self, n, env):
         c = self.callee(n['inner'][0])
         if c.get('kind') != 'DeclRefExpr':
@@ -322,6 +367,14 @@ class FullTranslator(Translator):
         if f is not None:
             return self.call_fn(n, f, args, None, env)
         name = r.get('name')
+        if r.get('kind') == 'CXXMethodDecl' and name in ('max', 'min', 'lowest') and not args and \
+                re.match(r'(::)?std::numeric_limits<[^()]*>::(max|min|lowest)\s*\(\s*\)$', self.src.text(n).strip()):
+            rt = self.resolve(n['type'], n)
+            if rt.kind != 'int' or rt.w is None:
+                self.bad(n, 'std::numeric_limits of a non-integer type')
+            if name == 'max':
+                return E(str(2 ** (rt.w - 1) - 1 if rt.signed else 2 ** rt.w - 1), rt)
+            return E('(%d)' % -(2 ** (rt.w - 1)) if rt.signed else '0', rt)
         if name not in STD_WHITELIST:
             self.bad(n, 'call to %s, which is neither an osmium function nor on the whitelist' % name)
         dd = conj(*[a.defd for a in args])
@@ -346,10 +399,10 @@ class FullTranslator(Translator):
             self.bad(n, 'indirect operator call')
         f = self.ix.by_id.get(c['referencedDecl']['id'])
         if f is None:
-            if c['referencedDecl'].get('name') == 'operator<' and len(n['inner']) == 3:
+            if c['referencedDecl'].get('name') in ('operator<', 'operator==') and len(n['inner']) == 3:
                 ta, tb = self.tuple_elems(n['inner'][1], env), self.tuple_elems(n['inner'][2], env)
                 if ta is not None and tb is not None:
-                    return self.tuple_less(n, ta, tb)
+                    return self.tuple_less(n, ta, tb) if c['referencedDecl']['name'] == 'operator<' else self.tuple_eq(n, ta, tb)
             self.bad(n, 'overloaded operator %s declared outside the osmium namespace' % c['referencedDecl'].get('name'))
         args = [self.ex(a, env) for a in n['inner'][1:]]
         if f['kind'] == 'CXXMethodDecl' and f.get('storageClass') != 'static':
@@ -363,7 +416,11 @@ class FullTranslator(Translator):
         if n.get('kind') != 'CallExpr':
             return None
         c = self.callee(n['inner'][0])
-        f = self.ix.by_id.get((c.get('referencedDecl') or {}).get('id'))
+        r = c.get('referencedDecl') or {}
+        f = self.ix.by_id.get(r.get('id'))
+        if f is None and r.get('name') == 'tie' and re.match(r'(::)?std::tie\b', self.src.text(c).strip()) and \
+                re.match(r'(std::)?tuple<', (n['type'].get('desugaredQualType') or n['type'].get('qualType', ''))):
+            return [self.ex(a, env) for a in n['inner'][1:]]      # std::tie(lvalues…): a tuple of references
         if f is None or f.get('_q') != 'osmium::const_tie':
             return None
         body = re.sub(r'\s+', '', self.src.text(self.ix.definition(f) or f))
@@ -403,6 +460,20 @@ class FullTranslator(Translator):
             t = '(%s || (!%s && %s))' % (paren(lt), paren(gt), t)
         return E(t, T_BOOL, conj(*[e.defd for e in ta + tb]))
 
+    def tuple_eq(self, n, ta, tb):
+        """std::tuple operator==: every pair of components compares equal"""
+        if len(ta) != len(tb) or not ta:
+            self.bad(n, 'comparison of tuples of different length')
+        parts = []
+        for a, b in zip(ta, tb):
+            if a.ty.kind == 'int' and b.ty.kind == 'int' and (a.ty.w, a.ty.signed) == (b.ty.w, b.ty.signed):
+                parts.append('%seq %s %s' % (SEM, paren(a.term), paren(b.term)))
+            elif a.ty.kind == 'bool' and b.ty.kind == 'bool':
+                parts.append('(%s == %s)' % (paren(a.term), paren(b.term)))
+            else:
+                self.bad(n, 'tuple == on components of type %r / %r' % (a.ty, b.ty))
+        return E('(' + ' && '.join(parts) + ')', T_BOOL, conj(*[e.defd for e in ta + tb]))
+
     def ex_CXXMemberCallExpr(self, n, env):
         me = n['inner'][0]
         while me.get('kind') in ('ParenExpr',):
@@ -441,6 +512,26 @@ class FullTranslator(Translator):
         if len(cands) != 1:
             self.bad(n, 'constructor %s of %s not found (%d candidates)' % (ct, ty.rec['_q'], len(cands)))
         return self.call_fn(n, cands[0], args, None, env)
+
+    def ex_InitListExpr(self, n, env):
+        """aggregate initialisation `T{e1, .., ek}` of a record whose members are all in the subset"""
+        ty = self.resolve(n['type'], n)
+        if ty.kind != 'rec':
+            self.bad(n, 'braced initialiser of %r' % ty)
+        self.record_item(ty.rec)
+        info = self.rec_fields[ty.rec['id']]
+        nfields = len([c for c in ty.rec.get('inner', []) if c.get('kind') == 'FieldDecl'])
+        args = [self.ex(a, env) for a in n.get('inner', [])]
+        if info['bases'] or ty.rec.get('bases') or nfields != len(info['fields']) or len(args) != nfields:
+            self.bad(n, 'braced initialiser of %s (bases, members outside the subset, or omitted members)' % ty.rec['_q'])
+        for a, (nm, ft, bits, c) in zip(args, info['fields']):
+            if bits is not None or a.ty.kind != ft.kind or (ft.kind == 'int' and (a.ty.w, a.ty.signed) != (ft.w, ft.signed)):
+                self.bad(n, 'braced initialiser: member %s initialised from %r' % (nm, a.ty))
+        lt = self.lean_ty(ty, n)
+        if not args:
+            return E('(⟨⟩ : %s)' % lt, ty)
+        return E('({ %s } : %s)' % (', '.join('%s := %s' % (f[0], a.term) for a, f in zip(args, info['fields'])), lt), ty,
+                 conj(*[a.defd for a in args]))
 
     ex_CXXConstructExpr = construct
     ex_CXXTemporaryObjectExpr = construct
